@@ -23,6 +23,8 @@ class Case:
     scenario: str = "normal"  # normal | fmtfail
     kwargs: tuple = ()
     target: str = "file"  # file | zip  (structural key component)
+    nameclass: str = "ordinary"  # class of the destination file name (NameClasses of AtomicWrite.tla)
+    light: bool = False  # driven with kills and one fault variant per boundary (a representation dimension)
 
     @property
     def name(self):
@@ -184,6 +186,33 @@ def appended(fname: str, new_payload):
     return ["zip", old[1] + new_payload[1]]
 
 
+# unusual but legal destination file names (every one is accepted by a plain open() on this file system)
+NAMES = {
+    "blanks": "my aln  file (copy) .fasta",
+    "quotes": "it's \"quoted\" \"\"twice\"\" `x`.nwk",
+    "brackets_glob": "aln[1]*?{a,b}(2)<3>.tsv",
+    "punctuation": "a:b,c#d|e;f&g=h%i@j!k~l^m+n$.fasta",
+    "unicode": "säugetiere_größe_日本語_ñ.nwk",
+    "leading_digit": "1st-run.tsv",
+    "digits_only": "20240131",  # no suffix at all (tree.write falls back to newick)
+    "many_dots": "v1.2.3..final.copy.2024.01.31.fasta",
+    "long": "n" * 244 + ".fasta",  # 250 bytes, short suffix: the staged name is fine
+    # 228 bytes, legal, but everything from the first '.' on is a "suffix": <uuid4> + suffixes exceeds NAME_MAX
+    "overlong_suffixes": "brca1." + "primate_orthologs_filtered_" * 8 + ".fasta",
+}
+_NAME_WRITER = {"fasta": ("aln", "seqfmt"), "nwk": ("tree", "with"), "tsv": ("table", "table"), "": ("tree", "with")}
+
+
+def name_cases():
+    out = []
+    for cls, fname in NAMES.items():
+        sfx = fname.rsplit(".", 1)[1] if "." in fname else ""
+        writer, group = _NAME_WRITER[sfx]
+        scenario = "unstageable" if cls == "overlong_suffixes" else "normal"
+        out.append(Case(writer, fname, group, scenario, nameclass=cls, light=True))
+    return out
+
+
 # ----------------------------------------------------------------------- cases
 def cases(tier: str):
     q = [
@@ -204,7 +233,7 @@ def cases(tier: str):
         Case("aln", "x.json.zip", None, target="zip"),
         Case("aln", "x.fasta.zip", None, target="zip"),
         Case("tree", "x.nwk.zip", None, target="zip"),
-    ]
+    ] + name_cases()
     if tier == "quick":
         return q
     t = list(q)
@@ -252,6 +281,14 @@ def cases(tier: str):
     t.append(Case("trees_exit", "x.trees.gz", "with", "interrupt"))
     t.append(Case("aln_intr", "x.json.gz", "with", "interrupt"))
     t.append(Case("table", "x.tsv", "table", kwargs=(("writer", _line_writer),)))
+    # the unstageable name with every writer family, compressed too, and a non-ASCII variant of it
+    long_sfx = "primate_orthologs_filtered_" * 8
+    t.append(Case("aln", "brca1." + long_sfx + ".fasta.gz", "seqfmt", "unstageable", nameclass="overlong_suffixes", light=True))
+    t.append(Case("aln", "brca1." + long_sfx + ".json", "with", "unstageable", nameclass="overlong_suffixes", light=True))
+    t.append(Case("tree", "brca1." + long_sfx + ".nwk", "with", "unstageable", nameclass="overlong_suffixes", light=True))
+    t.append(Case("table", "brca1." + long_sfx + ".tsv", "table", "unstageable", nameclass="overlong_suffixes", light=True))
+    t.append(Case("darr", "brca1." + long_sfx + ".tsv", "with", "unstageable", nameclass="overlong_suffixes", light=True))
+    t.append(Case("aln", "brca1." + "säugetiere_größe_" * 11 + ".json", "with", "unstageable", nameclass="overlong_suffixes", light=True))
     t.append(Case("table", "x.json.zip", None, target="zip"))
     t.append(Case("tree", "x.json.zip", None, target="zip"))
     # open_ in write mode on a zip archive
